@@ -264,7 +264,7 @@ func (g *lockGen) plan() *BlockPlan {
 			}
 		}
 	}
-	if rare(4) && len(thresholds) == 0 { // a threshold raised just above what a jailed validator holds, in a batch that ENDS with an
+	if rare(2) && len(thresholds) == 0 { // a threshold raised just above what a jailed validator holds, in a batch that ENDS with an
 		// update that changes nothing (the jailed validator must stay out until it meets the raised threshold)
 		for _, v := range st.Val {
 			if !v.Exists || v.Status != "Downgrade" || len(thresholds) > 0 {
